@@ -6,7 +6,9 @@ PROP = "C07"
 RULE = ("every graph on n<=3 nodes over the 9 per-pair kinds {none,->,<-,<->,->&<->,<-&<->,->&<- (2-cycle),--,<->&--} "
         "(cyclic ones included) and every ADMG(4) incl. bows (quick); additionally every 4-node graph over the kinds with an "
         "undirected edge or a 2-cycle on at most one pair (thorough); the 240 relabellings of two 5-node witnesses of the visit-order dependence of the search; seeded random ADMGs 5<=n<=7, half of them ancestral and "
-        "bow-free so that valid MAGs are frequent. distinct by canonical graph; non-trivial = acyclic, no undirected edge and "
+        "bow-free so that valid MAGs are frequent. repeat stream (same object): every ADMG(n<=3) x every single directed-edge edit, plus 300 (3000) random n<=6 "
+        "ADMGs with 1-2 edits: the three functions are called on G0 and discarded, G0 is edited in place, the judged calls run on the "
+        "same object against the model of the final graph. distinct by canonical graph (pair); non-trivial = acyclic, no undirected edge and "
         "at least one non-adjacent pair (maximality is not vacuous)")
 EXHAUSTIVE = {"quick": "all graphs over 9 pair kinds n<=3; all acyclic ADMG(4)", "thorough": "same + 4-node graphs with one undirected/2-cycle pair"}
 TRUSTED = ["networkx find_cycle / ancestors / descendants / all_neighbors taken at face value"]
@@ -31,8 +33,23 @@ def build(n, ks):
     return g
 
 
+def repeat_cases(tier, rng):
+    """same-object stream: the three functions are called on G0 (results discarded), G0 is edited in place to G and the
+    judged calls run on the SAME object against the model of G"""
+    import c06
+    for n in (2, 3):
+        for g0 in gr.enum_admg(n):
+            for g in c06.single_edits(g0):
+                yield {"kind": "repeat%d" % n, "g0": g0, "g": g, "oracle": True}
+    for i in range(300 if tier == "quick" else 3000):
+        n = rng.randint(4, 6)
+        g0 = gr.random_kinds_graph(rng, n, ["none", "->", "<-", "<->"] if i % 2 else gr.ADMG_KINDS, p_edge=rng.choice([0.2, 0.35, 0.5]))
+        yield {"kind": "repeat-rand", "g0": g0, "g": c06.random_edit(rng, g0), "oracle": True}
+
+
 def gen_cases(tier, rng):
     quick = tier == "quick"
+    yield from repeat_cases(tier, rng)
     for n in (1, 2, 3):
         for ks in itertools.product(list(KINDS), repeat=len(gr.pairs(n))):
             yield {"kind": "all%d" % n, "g": build(n, ks), "oracle": True}
@@ -74,7 +91,17 @@ def decode(case, v):
 def run_impl(case):
     import pywhy_graphs
     from pywhy_graphs.algorithms import generic
-    A, lab, inv = gr.to_admg(case["g"], case)
+    if case.get("g0") is not None:
+        import c06
+        A, lab, inv = gr.to_admg(case["g0"], case)
+        for name in ("valid_mag", "is_maximal", "has_adc"):      # warm-up on G0, results discarded
+            try:
+                getattr(generic, name)(A)
+            except Exception:  # noqa
+                pass
+        c06.apply_edits(A, lab, case["g0"], case["g"])           # same object from here on
+    else:
+        A, lab, inv = gr.to_admg(case["g"], case)
     out = {}
     for name in ("valid_mag", "is_maximal", "has_adc"):
         try:
@@ -118,10 +145,21 @@ def nontrivial(case, model):
 
 
 def key(case):
-    return gr.canon(case["g"])
+    return (gr.canon(case["g"]), gr.canon(case["g0"]) if case.get("g0") else None)
 
 
 def shrink(case):
+    if case.get("g0") is not None:
+        for v in case["g"]["V"]:
+            f = lambda h: {"V": [w for w in h["V"] if w != v], **{k: [e for e in h[k] if v not in e] for k in "DBUC"}}  # noqa
+            yield dict(case, g0=f(case["g0"]), g=f(case["g"]))
+        for which in ("g0", "g"):
+            for k in "DB":
+                for i in range(len(case[which][k])):
+                    h = dict(case[which])
+                    h[k] = h[k][:i] + h[k][i + 1:]
+                    yield dict(case, **{which: h})
+        return
     for h in gr.shrink_graph(case["g"]):
         yield dict(case, g=h)
 
